@@ -4,6 +4,9 @@
 CHECKS = {
     "C03": {
         "level": "exploration",
+        "technique": "property-based testing (rapid): codec round trip + decoder totality over generated commands and byte strings",
+        "level_text": "Generated search with an explicit oracle: every generated command list must survive FormatCommand->WriteFrame->ReadFrame->ParseCommand byte for byte, and arbitrary bytes must be decoded or rejected without panic or unbounded allocation. It samples the input space (tens of thousands of cases per run, shrunk counter-examples); it does not prove absence.",
+        "level_note": "Trusted: the Go toolchain, rapid, hash/crc32. The harness file is compiled into pkg/persistence through -overlay, /repo is not modified.",
         "assumptions": ["argument values do not themselves contain a complete well-formed frame (stated in the property)",
                         "inputs that declare a bulk/frame length >= 16 MiB are skipped in the random decoders part (legal under the 1 GiB cap)"],
         "units": [
@@ -13,6 +16,9 @@ CHECKS = {
     },
     "C04": {
         "level": "exploration",
+        "technique": "model-based stateful property testing (rapid): generated op histories against a reference map-of-records model, full read-out after every op",
+        "level_text": "Stateful model-based exploration: thousands of generated histories (adds, batches, imports, deletes, re-adds, metadata merges, reinforce, evolve, links, maintenance, compress, snapshot, rewrite, restart) are executed against the real engine and a reference model, and the complete observable state is compared after every operation. Failures shrink to minimal histories saved as JSON replays. Sampling, not proof.",
+        "level_note": "Trusted: the reference model in harness/internal/verifcheck (written from the property statement), rapid, the engine's read API used as the observation function. int8 values after a restart are adopted, not asserted (known finding int8-restart).",
         "assumptions": ["single client goroutine; background timers disabled by configuration (auto-save, auto-rewrite, maintenance interval)",
                         "wall-clock values (_created_at, edge timestamps) are bracketed around the call and then adopted, never predicted"],
         "units": [
@@ -20,3 +26,11 @@ CHECKS = {
         ],
     },
 }
+
+NOT_APPLICABLE = [
+    {"property_id": p, "reason": "check not built yet in this session (planned, see DESIGN.md section 9)"}
+    for p in ["C01", "C02", "C05", "C06", "C07", "C08", "C09", "C10", "C11", "C12", "C13", "C14", "C15", "C16", "C17", "C18", "C19", "C20"]
+    if p not in CHECKS
+]
+
+HOOK_COMMITS = []
